@@ -147,7 +147,7 @@ var (
 	c06All       c06Set
 	c06VersionIs [4]c06Set
 	c06ProtoIs   [4]c06Set
-	c06CodecIs   [3]c06Set
+	c06CodecIs   [4]c06Set // [c06Text] stays empty: CODEC_TEXT is "not used; will be ignored", no case has it
 	c06ComprIs   [7]c06Set
 	c06StreamIs  [6]c06Set
 	c06TLSIs     [2]c06Set
@@ -758,7 +758,16 @@ func c06Match(e c06Entry, ax *c06Axes, rd c06Reading) (m c06Set, selfContradicto
 	}
 	pick(e.Version, c06VersionIs[:], &ax.versions)
 	pick(e.Protocol, c06ProtoIs[:], &ax.protocols)
-	pick(e.Codec, c06CodecIs[:], &ax.codecs)
+	if e.Codec == c06Text {
+		// config.proto: CODEC_TEXT "not used; will be ignored" — no config case has
+		// this codec, so an entry that names it agrees with no case at all, whatever
+		// its other fields and the features say. That is not a contradiction between
+		// the fields of the entry (explicit is left alone): the entry simply matches
+		// nothing.
+		m = m.and(&c06CodecIs[c06Text])
+	} else {
+		pick(e.Codec, c06CodecIs[:], &ax.codecs)
+	}
 	pick(e.Compression, c06ComprIs[:], &ax.compressions)
 	pick(e.StreamType, c06StreamIs[:], &ax.streams)
 	pickTri(e.TLS, &c06TLSIs, &ax.tls)
@@ -1351,11 +1360,17 @@ func c06FlagsFromIndex(i int) (f [7]int) {
 
 // entries: version 4 x protocol 4 x codec 3 x compression 2 (unset, gzip) x
 // stream type 6 x three tri-state booleans = 7,776
-func c06AllEntries() []c06Entry {
+func c06AllEntries() []c06Entry { return c06EntriesWithCodecs([]int{0, 1, 2}) }
+
+// c06TextEntries: the same product with codec: CODEC_TEXT (5,184 entries, from
+// the entry that gives nothing else up to the ones that give all eight fields).
+func c06TextEntries() []c06Entry { return c06EntriesWithCodecs([]int{c06Text}) }
+
+func c06EntriesWithCodecs(cds []int) []c06Entry {
 	var out []c06Entry
 	for v := 0; v <= 3; v++ {
 		for p := 0; p <= 3; p++ {
-			for cd := 0; cd <= 2; cd++ {
+			for _, cd := range cds {
 				for _, cm := range []int{0, 2} {
 					for s := 0; s <= 5; s++ {
 						for tls := 0; tls < 3; tls++ {
@@ -1407,7 +1422,70 @@ func c06PairEntries() []c06Entry {
 		{Codec: 2, Compression: 2, Limit: F},
 		{Version: 2, Certs: T},
 		{StreamType: c06Half, TLS: F, Limit: T},
+		// the deprecated codec inside an entry: alone, and in an entry that gives all eight fields
+		{Codec: c06Text},
+		{Version: 2, Protocol: c06Connect, Codec: c06Text, Compression: 2, StreamType: 1, TLS: T, Certs: F, Limit: F},
 	}
+}
+
+// c06OutsideFamily: an include entry that names ONE value (every value of every
+// enum field, CODEC_TEXT included) next to an exclude entry that gives only
+// use_* flags (all 27 tri-state combinations, {} included), on features that
+// restrict one axis (or all five, or none) to its first value, so that the
+// included value lies outside the listed ones for most combinations. The omitted
+// fields of the exclude entry range over what the FEATURES support: cases an
+// include entry added outside of that are not matched by it and stay.
+func c06OutsideFamily(thorough bool, visit func(cfg *c06Config) bool) bool {
+	var includes []c06Entry
+	for v := 1; v <= 3; v++ {
+		includes = append(includes, c06Entry{Version: v}, c06Entry{Protocol: v}, c06Entry{Codec: v})
+	}
+	for cm := 1; cm <= 6; cm++ {
+		includes = append(includes, c06Entry{Compression: cm})
+	}
+	for st := 1; st <= 5; st++ {
+		includes = append(includes, c06Entry{StreamType: st})
+	}
+	if thorough {
+		// two values outside at once, and the flags given by the include entry as well
+		includes = append(includes,
+			c06Entry{Version: 3, Compression: 3}, c06Entry{Version: 2, Protocol: c06GRPC, StreamType: c06Full},
+			c06Entry{Version: 3, TLS: c06True, Certs: c06False, Limit: c06True}, c06Entry{Compression: 4, Codec: 2, Limit: c06False})
+	}
+	var excludes []c06Entry
+	for i := 0; i < 27; i++ {
+		excludes = append(excludes, c06Entry{TLS: i % 3, Certs: i / 3 % 3, Limit: i / 9})
+	}
+	sort.SliceStable(excludes, func(i, j int) bool { return c06SetFields(excludes[i]) < c06SetFields(excludes[j]) })
+	// restrict[i]: which axes list only their first value
+	restricts := []int{0, 1 << 0, 1 << 1, 1 << 2, 1 << 3, 1 << 4, 1<<5 - 1}
+	certsChoices := []int{c06Unset, c06True}
+	if thorough {
+		certsChoices = []int{c06Unset, c06True, c06False}
+	}
+	for _, inc := range includes {
+		for _, exc := range excludes {
+			for _, rs := range restricts {
+				for tls := 0; tls < 3; tls++ {
+					for _, certs := range certsChoices {
+						for _, lim := range []int{c06Unset, c06False} {
+							cfg := c06Config{Include: []c06Entry{inc}, Exclude: []c06Entry{exc}}
+							for a, f := range []*int{&cfg.Versions, &cfg.Protocols, &cfg.Codecs, &cfg.Compressions, &cfg.StreamTypes} {
+								if rs&(1<<a) != 0 {
+									*f = 1 << 0
+								}
+							}
+							cfg.Flags[c06FTLS], cfg.Flags[c06FCerts], cfg.Flags[c06FLimit] = tls, certs, lim
+							if !visit(&cfg) {
+								return false
+							}
+						}
+					}
+				}
+			}
+		}
+	}
+	return true
 }
 
 // 48 feature bases = 8 transport profiles x 6 protocol/stream profiles
@@ -1502,7 +1580,7 @@ func c06Enumerate(thorough bool, visit func(family string, cfg *c06Config) bool)
 		bases = []c06Config{bases[0], bases[3], bases[5], bases[6], bases[9], bases[18], bases[29], bases[36], bases[47]}
 		pairs = pairs[:0]
 		for i, e := range c06PairEntries() {
-			if i%3 == 0 || e == (c06Entry{TLS: c06False, Certs: c06False}) {
+			if i%3 == 0 || e == (c06Entry{TLS: c06False, Certs: c06False}) || e.Codec == c06Text {
 				pairs = append(pairs, e)
 			}
 		}
@@ -1536,6 +1614,68 @@ func c06Enumerate(thorough bool, visit func(family string, cfg *c06Config) bool)
 			listForms[bi] = true
 		}
 	}
+	// (lists of two, G and H are small and come before the big one-entry product, so that
+	// a budget cut under load does not reach them)
+	// lists with two entries in total: include+include, include+exclude, exclude+exclude
+	for _, e1 := range pairs {
+		for _, e2 := range pairs {
+			for bi := range bases {
+				for shape := 0; shape < 3; shape++ {
+					cfg := c06Clone(&bases[bi])
+					switch shape {
+					case 0:
+						cfg.Include = []c06Entry{e1}
+						cfg.Exclude = []c06Entry{e2}
+					case 1:
+						cfg.Include = []c06Entry{e1, e2}
+					case 2:
+						cfg.Exclude = []c06Entry{e1, e2}
+					}
+					if !visit("B-two-entries", &cfg) {
+						return
+					}
+				}
+			}
+		}
+	}
+	// Family G: entries that name the deprecated CODEC_TEXT, every other field
+	// independently omitted or given (up to entries that give all eight fields), as
+	// the only include / exclude entry. Such an entry matches no case.
+	{
+		textBases := []c06Config{all[0], all[6], all[4]}
+		if thorough {
+			textBases = all
+		}
+		for ei, e := range c06TextEntries() {
+			for bi := range textBases {
+				for side := 0; side < 2; side++ {
+					cfg := c06Clone(&textBases[bi])
+					if side == 0 {
+						cfg.Include = []c06Entry{e}
+					} else {
+						cfg.Exclude = []c06Entry{e}
+					}
+					forms := []int{0}
+					if ei%7 == 0 {
+						forms = []int{0, 1}
+					}
+					for _, form := range forms {
+						cfg.Form = form
+						if !visit("G-entries-with-deprecated-codec", &cfg) {
+							return
+						}
+					}
+				}
+			}
+		}
+	}
+
+	// Family H: one include entry naming a single value x one exclude entry that
+	// gives only use_* flags x features that restrict an axis.
+	if !c06OutsideFamily(thorough, func(cfg *c06Config) bool { return visit("H-include-outside-features-exclude-flags-only", cfg) }) {
+		return
+	}
+
 	// lists of length 1, every entry
 	for ei, e := range entries {
 		for bi := range bases {
@@ -1561,28 +1701,6 @@ func c06Enumerate(thorough bool, visit func(family string, cfg *c06Config) bool)
 				for _, form := range forms {
 					cfg.Form = form
 					if !visit("B-one-entry", &cfg) {
-						return
-					}
-				}
-			}
-		}
-	}
-	// lists with two entries in total: include+include, include+exclude, exclude+exclude
-	for _, e1 := range pairs {
-		for _, e2 := range pairs {
-			for bi := range bases {
-				for shape := 0; shape < 3; shape++ {
-					cfg := c06Clone(&bases[bi])
-					switch shape {
-					case 0:
-						cfg.Include = []c06Entry{e1}
-						cfg.Exclude = []c06Entry{e2}
-					case 1:
-						cfg.Include = []c06Entry{e1, e2}
-					case 2:
-						cfg.Exclude = []c06Entry{e1, e2}
-					}
-					if !visit("B-two-entries", &cfg) {
 						return
 					}
 				}
@@ -1836,7 +1954,9 @@ func TestVerifC06(t *testing.T) {
 		"C codec/compression choices; E every ordered codecs list over {proto, json, text}; D reordered/duplicated lists and YAML form; B include/exclude lists of 1, 2 and 4 entries " +
 		"over 7,776 entries on representative feature bases, the bases that write a repeated field also with every list in descending order + first element repeated and with every element written twice; " +
 		"F one include/exclude entry over version x protocol x {any, unary, half, full} x use_tls on every subset of versions x protocol/stream-type lists x tri-states of the flags the entry depends on, " +
-		"so that entries name values outside the listed ones); a configuration whose lists are written differently must have the outcome of the plainly written one; every configuration is distinct by construction; counted as " +
+		"so that entries name values outside the listed ones; G every entry with codec: CODEC_TEXT, each other field independently omitted or given up to all eight, as the only include/exclude entry - it matches no case; " +
+		"H one include entry naming a single value of any enum field x one exclude entry giving only use_* flags (all 27) x features restricting one axis / all / none, " +
+		"so that cases included outside the features meet an exclude entry whose omitted fields range over the features only); a configuration whose lists are written differently must have the outcome of the plainly written one; every configuration is distinct by construction; counted as " +
 		"non-trivial when the reference model yields a case set (not a feature-level contradiction), re-runs of the same " +
 		"configuration in another serialised form are evaluations but not counted as distinct"
 
